@@ -5,7 +5,6 @@ import (
 	"fmt"
 	"strings"
 
-	"github.com/gardenbed/emerge/internal/ebnf/parser"
 	"github.com/gardenbed/emerge/verif/ref/regexref"
 )
 
@@ -36,10 +35,22 @@ func Unescape(s string) string {
 	return b.String()
 }
 
+// Predefs are the predefined patterns as documented (docs/5-definitions.md): name -> pattern. The reference side of a
+// comparison reads a predefined name through this table, never through the implementation's own.
+var Predefs = map[string]string{
+	"$WS":      `[\x09\x0A\x0D\x20]`,
+	"$DIGIT":   `[0-9]`,
+	"$LETTER":  `[A-Za-z]`,
+	"$ID":      `[A-Za-z_][0-9A-Za-z_]*`,
+	"$NUMBER":  `-?[0-9]+(\.[0-9]+)?`,
+	"$STRING":  `"([\x21\x23-\x5B\x5D-\x7E]|\\[\x21-\x7E])+"`,
+	"$COMMENT": `(#|//)[\x09\x20-\x7E]*|/\*[\x09\x0A\x0D\x20-\x7E]*?\*/`,
+}
+
 // Pattern returns the pattern text of a non-literal definition.
 func (d Def) Pattern() string {
 	if d.Predef {
-		return parser.Predefs[d.Src]
+		return Predefs[d.Src]
 	}
 	return d.Src
 }
